@@ -123,9 +123,10 @@ type (
 	}
 	EIte   struct{ C, A, B Expr }
 	EQuant struct {
-		Forall bool
-		Vars   []QVar
-		Body   Expr
+		Forall   bool
+		Vars     []QVar
+		Body     Expr
+		Patterns []Expr // optional triggers: forall x T {f(x), g(x)} :: body
 	}
 	EOld struct{ X Expr }
 	EAt  struct {
@@ -270,6 +271,22 @@ func (p *parser) expr() (Expr, error) {
 				break
 			}
 		}
+		var pats []Expr
+		if p.accept("{") {
+			for {
+				pe, err := p.ternary()
+				if err != nil {
+					return nil, err
+				}
+				pats = append(pats, pe)
+				if p.accept("}") {
+					break
+				}
+				if err := p.expect(","); err != nil {
+					return nil, err
+				}
+			}
+		}
 		if err := p.expect("::"); err != nil {
 			return nil, err
 		}
@@ -277,7 +294,7 @@ func (p *parser) expr() (Expr, error) {
 		if err != nil {
 			return nil, err
 		}
-		return &EQuant{Forall: t.s == "forall", Vars: vars, Body: body}, nil
+		return &EQuant{Forall: t.s == "forall", Vars: vars, Body: body, Patterns: pats}, nil
 	}
 	return p.iff()
 }
